@@ -340,68 +340,73 @@ func c12FailedBackup(c *explore.Ctx) {
 			if c.Expired() || c.NViolations() > 0 {
 				return
 			}
-			s := base.NewSess()
-			mk := func(msg string) {
+			done, bad := c12FailedBackupCase(c, base, n)
+			if bad != "" {
 				c.Violation(explore.Violation{Key: fmt.Sprintf("failed-backup base=%s cfg=%s fault@%d", bc[0], bc[1], n),
-					What: fmt.Sprintf("base %s/%s: Backup with a transient I/O error at its mutating file-system call #%d, then: %s", bc[0], bc[1], n, msg), Size: n,
-					Replay: map[string]interface{}{"kind": "failbackup12", "base": bc[0], "cfg": bc[1], "fault_at": n, "observed": msg}})
-			}
-			if err := s.OpenDB(); err != nil {
-				mk("Open: " + err.Error())
+					What: fmt.Sprintf("base %s/%s: Backup with a transient I/O error at its mutating file-system call #%d, then: %s", bc[0], bc[1], n, bad), Size: n,
+					Replay: map[string]interface{}{"kind": "failbackup12", "base": bc[0], "cfg": bc[1], "fault_at": n, "observed": bad}})
 				return
 			}
-			before := s.FS.Mutations()
-			s.FS.FailAt = before + n
-			berr := s.Apply(explore.Op{Kind: explore.Backup})
-			s.FS.FailAt = 0
-			if s.FS.Mutations() < before+n {
-				_ = s.ProtectedClose()
+			if done {
 				break
-			}
-			c.Add("executions", 1)
-			c.Add("failed_backup_probes", 1)
-			c.Add("transitions", 5)
-			bad := ""
-			if berr == nil {
-				// Backup reported success in spite of the failed file-system call: the directory it produced must
-				// then be a complete backup
-				c.Add("faulted_backups_reporting_success", 1)
-				rec := explore.RecoverImage(s.FS.SubImage(s.LastBackup, explore.DBPath), base.Cfg, base.Keys, base.Probe, base.Seed, explore.RecoverOpts{})
-				switch {
-				case rec.OpenErr != "":
-					bad = "Backup returned nil, the backup does not open: " + rec.OpenErr
-				case rec.Internal != "" || !s.Model.Equal(rec.Contents):
-					bad = "Backup returned nil, the backup does not hold the contents of the source: " + rec.Internal + " " + s.Model.Diff(rec.Contents, s.KeyName)
-				}
-			}
-			if bad != "" {
-			} else if err := s.Apply(explore.Op{Kind: explore.Compact}); err != nil {
-				bad = "Compact returned error: " + err.Error()
-			} else if err := s.Apply(explore.Op{Kind: explore.Put, Key: "a"}); err != nil {
-				bad = "Put returned error: " + err.Error()
-			} else if err := s.Apply(explore.Op{Kind: explore.Backup}); err != nil {
-				bad = "a second Backup returned error: " + err.Error()
-			} else if msg := s.Check(); msg != "" {
-				bad = "the source database: " + msg
-			} else {
-				rec := explore.RecoverImage(s.FS.SubImage(s.LastBackup, explore.DBPath), base.Cfg, base.Keys, base.Probe, base.Seed, explore.RecoverOpts{})
-				switch {
-				case rec.OpenErr != "":
-					bad = "the second backup does not open: " + rec.OpenErr
-				case rec.Internal != "" || !s.Model.Equal(rec.Contents):
-					bad = "the second backup does not hold the contents of the source: " + rec.Internal + " " + s.Model.Diff(rec.Contents, s.KeyName)
-				}
-			}
-			if s.Panicked != "" {
-				bad = s.Panicked
-			}
-			_ = s.ProtectedClose()
-			if bad != "" {
-				mk(bad)
-				return
 			}
 		}
 	}
+}
+
+// c12FailedBackupCase: done = Backup makes fewer than n mutating file-system calls.
+func c12FailedBackupCase(c *explore.Ctx, base *explore.Base, n int) (bool, string) {
+	s := base.NewSess()
+	if err := s.OpenDB(); err != nil {
+		return true, "Open: " + err.Error()
+	}
+	before := s.FS.Mutations()
+	s.FS.FailAt = before + n
+	berr := s.Apply(explore.Op{Kind: explore.Backup})
+	s.FS.FailAt = 0
+	if s.FS.Mutations() < before+n {
+		_ = s.ProtectedClose()
+		return true, ""
+	}
+	c.Add("executions", 1)
+	c.Add("failed_backup_probes", 1)
+	c.Add("transitions", 5)
+	bad := ""
+	if berr == nil {
+		// Backup reported success in spite of the failed file-system call: the directory it produced must
+		// then be a complete backup
+		c.Add("faulted_backups_reporting_success", 1)
+		rec := explore.RecoverImage(s.FS.SubImage(s.LastBackup, explore.DBPath), base.Cfg, base.Keys, base.Probe, base.Seed, explore.RecoverOpts{})
+		switch {
+		case rec.OpenErr != "":
+			bad = "Backup returned nil, the backup does not open: " + rec.OpenErr
+		case rec.Internal != "" || !s.Model.Equal(rec.Contents):
+			bad = "Backup returned nil, the backup does not hold the contents of the source: " + rec.Internal + " " + s.Model.Diff(rec.Contents, s.KeyName)
+		}
+	}
+	if bad != "" {
+	} else if err := s.Apply(explore.Op{Kind: explore.Compact}); err != nil {
+		bad = "Compact returned error: " + err.Error()
+	} else if err := s.Apply(explore.Op{Kind: explore.Put, Key: "a"}); err != nil {
+		bad = "Put returned error: " + err.Error()
+	} else if err := s.Apply(explore.Op{Kind: explore.Backup}); err != nil {
+		bad = "a second Backup returned error: " + err.Error()
+	} else if msg := s.Check(); msg != "" {
+		bad = "the source database: " + msg
+	} else {
+		rec := explore.RecoverImage(s.FS.SubImage(s.LastBackup, explore.DBPath), base.Cfg, base.Keys, base.Probe, base.Seed, explore.RecoverOpts{})
+		switch {
+		case rec.OpenErr != "":
+			bad = "the second backup does not open: " + rec.OpenErr
+		case rec.Internal != "" || !s.Model.Equal(rec.Contents):
+			bad = "the second backup does not hold the contents of the source: " + rec.Internal + " " + s.Model.Diff(rec.Contents, s.KeyName)
+		}
+	}
+	if s.Panicked != "" {
+		bad = s.Panicked
+	}
+	_ = s.ProtectedClose()
+	return false, bad
 }
 
 func runC12(c *explore.Ctx) {
